@@ -394,6 +394,7 @@ type Sys struct {
 	multiset  bool // outputs are compared as multisets (fork stages)
 	Clause    string
 	joinChk   func(i, v int)
+	Start     time.Duration // virtual time at which the stage was constructed
 }
 
 func (s *Sys) fails(idx int) bool {
@@ -455,6 +456,12 @@ func (s *Sys) visitFn() func(int) (int, error) {
 	return func(x int) (int, error) {
 		s := curSys(s.E) // the stage in use now (a morphism value may be shared by two uses)
 		defer s.E.Leave(s.Calls, s.E.Enter(s.Calls, x))
+		if s.P.Mode != "pure" && s.fails(s.indexOf(x)) {
+			// ForEach has nowhere to report a failure: every element is
+			// still visited exactly once
+			s.E.Fault("fn_error")
+			return x, elemErr{x, s.P.X("err_kind")}
+		}
 		return x, nil
 	}
 }
@@ -546,6 +553,9 @@ func forkF[B any](mode string, f func(int) (B, error)) fork.F[int, B] {
 }
 
 func (s *Sys) input(i int) chan int {
+	if i < len(s.InCh) {
+		return s.InCh[i]
+	}
 	c := s.P.Cap
 	if i < len(s.P.InCaps) {
 		c = s.P.InCaps[i]
@@ -685,8 +695,40 @@ func BuildStage(e *driver.Env, clause string) *Sys {
 	stage, isFork := baseStage(p.Stage)
 	s.fork = isFork
 	s.multiset = isFork
+	// the producers exist (and may run) before the stage does
+	switch stage {
+	case "Emit", "Unfold", "Seq":
+	case "Join":
+		for i := range p.Inputs {
+			s.input(i)
+		}
+	default:
+		s.input(0)
+	}
+	if k := p.X("late_build"); k > 0 {
+		// the stage is constructed late: by then the producers may already
+		// have filled the input buffers and be parked on the next send
+		simrt.GoEnv("builder", func() {
+			for i := 0; i < k; i++ {
+				simrt.Yield("builder.wait")
+			}
+			if !simrt.Free() {
+				s.construct(clause)
+			}
+		})
+		return s
+	}
+	s.construct(clause)
+	return s
+}
+
+// construct calls the stage constructor and attaches the consumers.
+func (s *Sys) construct(clause string) *Sys {
+	e, p := s.E, s.P
+	stage, isFork := baseStage(p.Stage)
 	ctx := e.Ctx
 	freq := planInterval(p)
+	s.Start = e.S.Now()
 	if isFork {
 		par := p.Par
 		switch stage {
@@ -707,7 +749,11 @@ func BuildStage(e *driver.Env, clause string) *Sys {
 			s.consumeOut(l)
 			s.consumeOut2(r)
 		case "ForEach":
-			s.consumeDone(fork.ForEach(ctx, par, s.input(0), forkF("lift", s.visitFn())))
+			feMode := "lift"
+			if p.Mode == "try" {
+				feMode = "try"
+			}
+			s.consumeDone(fork.ForEach(ctx, par, s.input(0), forkF(feMode, s.visitFn())))
 		case "Void":
 			s.consumeDone(fork.Void(ctx, par, s.input(0)))
 		case "Fold":
